@@ -12,6 +12,7 @@ import CSD.Lemmas.PFCMeta
 import CSD.Lemmas.HashBlocks
 import CSD.Lemmas.HashRP
 import CSD.Lemmas.HashRPF
+import CSD.Lemmas.CodecRoundTrip
 
 namespace CSD.Props.C01
 open CSD CSD.PFC
@@ -86,6 +87,19 @@ theorem hash_ids_injective (tsize0 : Nat) (S : List Str) (hnd : S.Nodup) (hcap :
     (hacc : Hash.accepted (Hash.build tsize0 S).tsize = true) (s s' : Str) (hs : s ∈ S) (hs' : s' ∈ S)
     (h : Hash.locate (Hash.build tsize0 S) s = Hash.locate (Hash.build tsize0 S) s') : s = s' :=
   Hash.locate_injective (Hash.goodDict_build tsize0 S hnd hcap hacc) s s' hs hs' h
+
+/-- **HASHHF and HASHUFFDAC: the keys of the table are the Huffman-coded strings, and different strings
+have different keys** — `StatCoder::encodeString` (bit-exact model) is injective on NUL-terminated strings
+for every codeword table that lists the paths of a code tree. The hash theorems above then apply to the
+list of coded keys (`S := keys`): IDs `1..n` are a bijection whatever the collisions. On every run the
+driver re-encodes the strings with the exported codewords, rebuilds the table with the double-hashing model
+and must predict every ID the real `locate` returns (`huffman-keys` stream). -/
+theorem huffman_keys_distinct (t : Codes.Tree) (cwOf : Nat → Nat × Nat) (hb : ∀ s, (cwOf s).2 ≤ 32)
+    (w w' : List Nat) (hm : StatCoder.TableMatches t cwOf w) (hm' : StatCoder.TableMatches t cwOf w')
+    (hw : StatCoder.Terminated w) (hw' : StatCoder.Terminated w') (bytes : List Nat)
+    (he : StatCoder.encodeString cwOf w 0 0 [] = some bytes) (he' : StatCoder.encodeString cwOf w' 0 0 [] = some bytes) :
+    w = w' :=
+  StatCoder.encodeString_injective t cwOf hb w w' hm hm' hw hw' bytes he he'
 
 /-- `nearest_prime` hands the table a prime size (or 1), which is what makes the probe sequence
 visit every cell; within the model's search bound the size is accepted or the bound was hit. -/
